@@ -153,7 +153,7 @@ PROPS["C09"] = dict(
     parts=[dict(bin="e1_rcl")],
     rule="case = (list of strings, block size k); ALL sequences of length <= N over the short alphabet {\"\", a, ab, abc, abd, b, e-acute, e-acute a, U+10FFFF}; all sequences of length <= 3 containing at least one of a^127, a^128, a^129 b (rear lengths crossing 127/128); sequences of length <= 2 (thorough 3) containing a^16511 or a^16512 c (crossing 16511/16512); sorted word lists of 150 (thorough 600) strings with shared prefixes for k up to 64; sorted, unsorted and duplicate-bearing lists all occur; non-trivial = at least 2 strings",
     alphabet="k in {1,2,3,4,5} (sorted word lists also 8,16,64); probes: every alphabet string, proper prefixes/extensions, strings sorting before/between/after",
-    bound={"quick": "N=5", "thorough": "N=6"},
+    bound={"quick": "N=5", "thorough": "N=6; rear lengths crossing 2 113 664 (third code boundary) with 2 MB strings"},
     oracle="Vec<String>: len, get(i), get_in_place(i) all i; iter/lend/into_lender/into_iter and iter_from(j)/lend_from(j)/into_iter_from(j) for every j in 0..=n with exact remaining length before every next; index_of(s) returns an index holding s iff s was pushed, contains agrees; get(n) panics",
     assumptions=STRICT,
 )
